@@ -430,6 +430,11 @@ func genAccess(repo, out string) {
 		first := strings.Index(s, "newStructDescAndPrefetch(")
 		set := strings.Index(s, "sds.Set(")
 		createOK = lock >= 0 && first > lock && set > first && !strings.Contains(s[:lock], "sds.Set(") && !strings.Contains(s[:lock], "newStructDescAndPrefetch(")
+		// nothing is deferred before the lock is taken (it would run after the unlock), and the
+		// pending log is rolled back on failure / committed on success right after the build,
+		// inside the locked region and unconditionally
+		createOK = createOK && !strings.Contains(s[:lock], "defer") &&
+			strings.Contains(s[lock:], "sd,err:=newStructDescAndPrefetch(rt)iferr!=nil{rollbackPending()returnnil,err}commitPending()sds.Set(abiType,sd)")
 	}
 	fmt.Fprintf(&b, "(* createStructDesc takes sdsmu (Lock; defer Unlock) before building and before sds.Set; build precedes Set *)\nDefinition create_locked_shape : bool := %v.\n", createOK)
 	getOK := shape("mapStructDesc.Get", "{slot:=m.slots[abiType&mapStructDescBuckets].Load()ifslot==nil{returnnil}fori:=range*slot{if(*slot)[i].abiType==abiType{return(*slot)[i].sd}}returnnil}")
